@@ -21,6 +21,7 @@ Section JsInd.
   Hypothesis HMapObj : forall k okey a, P a -> P (JMapObj k okey a).
   Hypothesis HNullable : forall a, P a -> P (JNullable a).
   Hypothesis HIso : forall f g a, P a -> P (JIso f g a).
+  Hypothesis HCustom : forall w r, P (JCustom w r).
   Fixpoint jshape_ind' (a : jshape) : P a :=
     let fields := fix go (fs : list (bytes * jshape)) : Forall (fun f => P (snd f)) fs :=
       match fs with [] => Forall_nil _ | (n, a') :: r => Forall_cons (n, a') (jshape_ind' a') (go r) end in
@@ -42,6 +43,7 @@ Section JsInd.
     | JMapObj k okey a' => HMapObj k okey a' (jshape_ind' a')
     | JNullable a' => HNullable a' (jshape_ind' a')
     | JIso f g a' => HIso f g a' (jshape_ind' a')
+    | JCustom w r => HCustom w r
     end.
 End JsInd.
 
@@ -293,7 +295,7 @@ Section Ext.
 
   Theorem serde_read_write a : RW a.
   Proof.
-    induction a as [l|fs IH|fs IH|vs IH|a' IH|a' IH|fs IH|k okey a' IH|a' IH|f g a' IH] using jshape_ind'; intros Hw v Hv.
+    induction a as [l|fs IH|fs IH|vs IH|a' IH|a' IH|fs IH|k okey a' IH|a' IH|f g a' IH|w r] using jshape_ind'; intros Hw v Hv.
     - (* leaf *) cbn [SerdeSchema.json_s SerdeSchema.of_json_s SerdeSchema.norm_s]. now apply leaf_roundtrip.
     - (* record *)
       cbn [SerdeSchema.wfj] in Hw. apply andb_prop in Hw as [Hn Hws]. destruct v; try discriminate. cbn [SerdeSchema.jwf] in Hv.
@@ -364,6 +366,9 @@ Section Ext.
     - (* iso *)
       cbn [SerdeSchema.wfj SerdeSchema.jwf] in Hw, Hv. cbn [SerdeSchema.json_s SerdeSchema.of_json_s SerdeSchema.norm_s].
       now rewrite (IH Hw _ Hv).
+    - (* hand-written pair *)
+      cbn [SerdeSchema.jwf SerdeSchema.json_s SerdeSchema.of_json_s SerdeSchema.norm_s] in *.
+      destruct (r (w v)); try discriminate. reflexivity.
   Qed.
 
   (* ---------- values whose maps were filled in ascending key order come back unchanged ---------- *)
@@ -408,7 +413,7 @@ Section Ext.
 
   Theorem serde_canonical a : CN a.
   Proof.
-    induction a as [l|fs IH|fs IH|vs IH|a' IH|a' IH|fs IH|k okey a' IH|a' IH|f g a' IH] using jshape_ind'; intros Hw v Hv Hc.
+    induction a as [l|fs IH|fs IH|vs IH|a' IH|a' IH|fs IH|k okey a' IH|a' IH|f g a' IH|w r] using jshape_ind'; intros Hw v Hv Hc.
     - reflexivity.
     - cbn [SerdeSchema.wfj] in Hw. apply andb_prop in Hw as [Hn Hws]. destruct v; try discriminate.
       cbn [SerdeSchema.jwf SerdeSchema.canonical SerdeSchema.norm_s] in *. f_equal.
@@ -455,6 +460,7 @@ Section Ext.
         apply andb_prop in Hv as [H1 _]; now apply IH.
     - cbn [SerdeSchema.wfj SerdeSchema.jwf SerdeSchema.canonical SerdeSchema.norm_s] in *. apply andb_prop in Hc as [C1 C2].
       rewrite (IH Hw _ Hv C1). now apply val_eqb_sound.
+    - cbn [SerdeSchema.canonical SerdeSchema.norm_s] in *. destruct (r (w v)); try discriminate. now apply val_eqb_sound.
   Qed.
 
   (* ===== the typed-value clause for an annotated type ===== *)
